@@ -94,6 +94,9 @@ class C07System(BuilderSystem):
         for mode, kw in (("pause", {"S": g1}), ("pause", {"P": g3}), ("optional-pause", {"S": g2}), ("end-without-reset", {"R": g1}),
                          ("end-with-reset", {"S": g3}), ("pallet-exchange", {"s": g1}), ("wait-for-motion", {"R": g2}), ("off", {"S": g1})):
             ops.append(["halt", [mode], kw])
+        # a second output fails while the call writes: the state keeps mirroring what reached the first output
+        ops += [["!fault", ["tool_on", ["clockwise", g2]]], ["!fault", ["move", [], {"x": 2, "F": g1, "S": g2}]], ["!fault", ["set_hotend_temperature", [g2]]],
+                ["!fault", ["set_length_units", ["in"]]], ["!fault", ["tool_change", ["manual", 3]]], ["!fault", ["coolant_on", ["mist"]]]]
         ops += [["set_distance_mode", ["relative"]], ["set_distance_mode", ["absolute"]],
                 ["set_extrusion_mode", ["relative"]], ["set_extrusion_mode", ["absolute"]],
                 ["set_feed_mode", ["1/time"]], ["set_feed_mode", ["units/min"]], ["set_feed_mode", ["units/rev"]],
@@ -109,9 +112,11 @@ class C07System(BuilderSystem):
         problems = []
         exc, chunks = self.apply(st, op)
         self.feed(st, chunks, problems)
-        if exc is None and op[0] == "tool_on":
+        inner = op[1] if op[0] == "!fault" else op
+        started = any(ev[0] == "tool_start" for ev in st.last_events)        # the start line reached the (first) output
+        if inner[0] == "tool_on" and (exc is None or started):
             st.started_by = "spin"
-        if exc is None and op[0] == "power_on":
+        if inner[0] == "power_on" and (exc is None or started):
             st.started_by = "power"
         s, m, g = st.g.state, st.machine, st.g
 
